@@ -251,16 +251,19 @@ func (c *config) needsTag(f *ast.Field) bool {
 	if _, err := tags.Get("plenc"); err == nil {
 		return false
 	}
-	if c.isExcluded(tags) {
-		return false
-	}
+	eligible := 0
 	for _, name := range f.Names {
 		r, _ := utf8.DecodeRuneInString(name.Name)
 		if !c.excludePrivate || !unicode.IsLower(r) {
-			return true
+			eligible++
 		}
 	}
-	return false
+	if c.isExcluded(tags) {
+		// All the names can share a "-" tag, unless some of them are private
+		// fields that are to be left alone
+		return eligible != 0 && eligible != len(f.Names)
+	}
+	return eligible != 0
 }
 
 func (c *config) isExcluded(tags *structtag.Tags) bool {
